@@ -50,6 +50,11 @@ CLAIMS = {
    text="For every ordered pair of numeric kinds, boundary and random values that the target can represent must convert to exactly that number, floats must truncate toward zero and clamp into integer kinds, matrix conversion must equal the scalar rule elementwise and keep the shape; all reshapes up to 16 elements must be column-major (unequal counts fail); string->number fails; matrix->set keeps the distinct elements.",
    note="Pairs for which every value is rejected are treated as 'no conversion' (allowed by the property). Unconstrained cases (narrowing integers, inexact floats) are only judged through the matrix-vs-scalar twin.",
    ref="6/C12"),
+ "C14": dict(
+   technique="runtime monitoring: mathematical-set reference model over small universes with several spellings per element; structural invariant monitor (distinct elements, single kind, size = cardinality) applied to every set value observed",
+   text="Pairs of subsets of 5-element universes (f64, signed zeros, u8, i64, rationals with unreduced spellings, strings, bools, tuples, nested sets with permuted inner orders) are written as literals in permuted insertion orders and combined with every set operator, relation and membership test, chained, and built by comprehensions; results are compared with the mathematical result after mapping elements back to universe ids learned from singleton literals.",
+   note="Element identity is the language's own equality (0 = -0, 2/4 = 1/2, {1,2} = {2,1}). Universes whose spellings exercise a recorded defect (signed zeros, permuted inner sets) are separate cells so the plain universes stay fully monitored.",
+   ref="6/C14"),
 }
 NOT_YET = "not claimed yet: the monitor for this property is still being built in this session (see DESIGN.md section 6 for the planned check)"
 
